@@ -164,13 +164,13 @@ theorem splitRd_append : ∀ (E1 E2 : List Ev), (∀ u, Ev.rd u ∉ E1) →
 
 /-! ## the reading loop against the Spec's `go` -/
 
-theorem go_nil (cfg : Cfg) (a : A) (fuel : Nat) : Spec.round.go cfg a [] [] fuel = a := by
-  rw [Spec.round.go.eq_def]; cases fuel <;> rfl
+theorem go_nil (cfg : Cfg) (a : A) (fuel : Nat) : Spec.roundBody.go cfg a [] [] fuel = a := by
+  rw [Spec.roundBody.go.eq_def]; cases fuel <;> rfl
 
 theorem go_skip (cfg : Cfg) (a : A) (rd : Read) (rest : List Read) (segs : List (Nat × List Ev)) (fuel : Nat)
     (h : a.live rd.uid = none) :
-    Spec.round.go cfg a (rd :: rest) segs (fuel + 1) = Spec.round.go cfg a rest segs fuel := by
-  rw [Spec.round.go.eq_def]
+    Spec.roundBody.go cfg a (rd :: rest) segs (fuel + 1) = Spec.roundBody.go cfg a rest segs fuel := by
+  rw [Spec.roundBody.go.eq_def]
   simp only []
   unfold Spec.A.live at h
   cases hg : a.get rd.uid with
@@ -185,20 +185,20 @@ theorem go_skip (cfg : Cfg) (a : A) (rd : Read) (rest : List Read) (segs : List 
 
 theorem go_take (cfg : Cfg) (a : A) (rd : Read) (rest : List Read) (evs : List Ev) (segs : List (Nat × List Ev))
     (fuel : Nat) (m : AMod) (h : a.live rd.uid = some m) :
-    Spec.round.go cfg a (rd :: rest) ((rd.uid, evs) :: segs) (fuel + 1) =
-      Spec.round.go cfg (Spec.segment cfg a rd evs) rest segs fuel := by
-  rw [Spec.round.go.eq_def]
+    Spec.roundBody.go cfg a (rd :: rest) ((rd.uid, evs) :: segs) (fuel + 1) =
+      Spec.roundBody.go cfg (Spec.segment cfg (Spec.checkNoticeOrigin cfg a (some rd) evs) rd evs) rest segs fuel := by
+  rw [Spec.roundBody.go.eq_def]
   simp only []
   obtain ⟨hg, hal⟩ := Spec.live_some.mp h
   simp [hg, hal]
 
 /-- with no segment left, `go` only reports (under C03) the frames that were never read -/
 theorem go_nil_ext (cfg : Cfg) : ∀ (reads : List Read) (a : A) (fuel : Nat),
-    Spec.ErrExt ["C03"] a (Spec.round.go cfg a reads [] fuel)
+    Spec.ErrExt ["C03"] a (Spec.roundBody.go cfg a reads [] fuel)
   | [], a, fuel => by rw [go_nil]; exact Spec.ErrExt.refl _ _
-  | rd :: rest, a, 0 => by rw [Spec.round.go.eq_def]; exact Spec.ErrExt.refl _ _
+  | rd :: rest, a, 0 => by rw [Spec.roundBody.go.eq_def]; exact Spec.ErrExt.refl _ _
   | rd :: rest, a, fuel + 1 => by
-    rw [Spec.round.go.eq_def]
+    rw [Spec.roundBody.go.eq_def]
     simp only []
     split
     · split
@@ -239,8 +239,8 @@ theorem readAll_go : ∀ (reads : List Read) (a : A) (s sQ : State) (E : List Ev
     QuietTo cfg (readAll cfg reads s) sQ → sQ.out = s.out ++ E →
     ((∀ u, Ev.rd u ∉ E) ∧ readAll cfg reads s = s) ∨
     ((Spec.splitRd E).1 = [] ∧ (Spec.splitRd E).2 ≠ [] ∧
-      Inv cfg (Spec.round.go cfg a reads (Spec.splitRd E).2 fuel) sQ ∧
-      (∀ p ∈ proven, Spec.NoErr p a → Spec.NoErr p (Spec.round.go cfg a reads (Spec.splitRd E).2 fuel)))
+      Inv cfg (Spec.roundBody.go cfg a reads (Spec.splitRd E).2 fuel) sQ ∧
+      (∀ p ∈ proven, Spec.NoErr p a → Spec.NoErr p (Spec.roundBody.go cfg a reads (Spec.splitRd E).2 fuel)))
   | [], a, s, sQ, E, fuel, inv, _, _, q, he => by
     left
     obtain ⟨E', hE', hno, _⟩ := q.nest.ext
@@ -279,10 +279,16 @@ theorem readAll_go : ∀ (reads : List Read) (a : A) (s sQ : State) (E : List Ev
         have : s.out ++ E = s.out ++ (Ev.rd rd.uid :: E1 ++ (E2a ++ E2b)) := by
           rw [← he, hE2, hE1]; simp
         exact List.append_cancel_left this
+      -- the C14 origin check only appends error entries
+      have invN : ∀ evs', Inv cfg (Spec.checkNoticeOrigin cfg a (some rd) evs') s := fun evs' =>
+        ⟨sim_coreExt inv.sim (Spec.checkNoticeOrigin_ext cfg a (some rd) evs').core, inv.top, inv.j⟩
+      have errN : ∀ evs' p, p ∈ proven → Spec.NoErr p a → Spec.NoErr p (Spec.checkNoticeOrigin cfg a (some rd) evs') :=
+        fun evs' p hp hn => (Spec.checkNoticeOrigin_ext cfg a (some rd) evs').noErr (fun h => proven_not hp (by
+          simp only [List.mem_singleton] at h; subst h; simp [others])) hn
       -- the abstract state after this frame alone
-      have hx := segment_ok ok hfuel hperm inv rd hu0 m hm (readOne cfg s rd) (quietTo_refl t1 j1) E1 hE1
-      rcases readAll_go rest (Spec.segment cfg a rd E1) (readOne cfg s rd) sQ (E2a ++ E2b) fuel ⟨hx.1.sim, hx.1.top, hx.1.j⟩
-          hwf' hlen' q hE2 with ⟨h1, h2⟩ | ⟨h1, h2, h3, h4⟩
+      have hx := segment_ok ok hfuel hperm (invN E1) rd hu0 m hm (readOne cfg s rd) (quietTo_refl t1 j1) E1 hE1
+      rcases readAll_go rest (Spec.segment cfg (Spec.checkNoticeOrigin cfg a (some rd) E1) rd E1) (readOne cfg s rd) sQ
+          (E2a ++ E2b) fuel ⟨hx.1.sim, hx.1.top, hx.1.j⟩ hwf' hlen' q hE2 with ⟨h1, h2⟩ | ⟨h1, h2, h3, h4⟩
       · -- the last frame handled in this round: the continuation's events belong to its segment
         rw [h2] at q
         have hsplit : Spec.splitRd E = ([], [(rd.uid, E1 ++ (E2a ++ E2b))]) := by
@@ -291,17 +297,17 @@ theorem readAll_go : ∀ (reads : List Read) (a : A) (s sQ : State) (E : List Ev
           rcases List.mem_append.mp hu with h | h
           · exact hno1 u h
           · exact h1 u h
-        have hseg := segment_ok ok hfuel hperm inv rd hu0 m hm sQ q (E1 ++ (E2a ++ E2b))
+        have hseg := segment_ok ok hfuel hperm (invN (E1 ++ (E2a ++ E2b))) rd hu0 m hm sQ q (E1 ++ (E2a ++ E2b))
           (by rw [he, hE]; simp)
         rw [hsplit]
+        have hext := go_nil_ext cfg rest
+          (Spec.segment cfg (Spec.checkNoticeOrigin cfg a (some rd) (E1 ++ (E2a ++ E2b))) rd (E1 ++ (E2a ++ E2b))) fuel
         refine ⟨rfl, by simp, ?_, ?_⟩
         · rw [go_take cfg a rd rest _ [] fuel am ham]
-          have hext := go_nil_ext cfg rest (Spec.segment cfg a rd (E1 ++ (E2a ++ E2b))) fuel
           exact ⟨sim_coreExt hseg.1.sim hext.core, hseg.1.top, hseg.1.j⟩
         · intro p hp hn
           rw [go_take cfg a rd rest _ [] fuel am ham]
-          have hext := go_nil_ext cfg rest (Spec.segment cfg a rd (E1 ++ (E2a ++ E2b))) fuel
-          refine hext.noErr ?_ (hseg.2 p hp hn)
+          refine hext.noErr ?_ (hseg.2 p hp (errN _ p hp hn))
           have := proven_not hp
           intro hmem; apply this; simp only [List.mem_singleton] at hmem; subst hmem; simp [others]
       · have hsplit : Spec.splitRd E = ([], (rd.uid, E1) :: (Spec.splitRd (E2a ++ E2b)).2) := by
@@ -311,7 +317,7 @@ theorem readAll_go : ∀ (reads : List Read) (a : A) (s sQ : State) (E : List Ev
         · rw [go_take cfg a rd rest E1 _ fuel am ham]; exact h3
         · intro p hp hn
           rw [go_take cfg a rd rest E1 _ fuel am ham]
-          exact h4 p hp (hx.2 p hp hn)
+          exact h4 p hp (hx.2 p hp (errN _ p hp hn))
 
 end loop
 
@@ -466,9 +472,9 @@ def preReads (a : A) (r : Round) : List Read :=
 /-- the abstract state in which the Spec starts to replay the frames read: the events before the first `rd` marker
     (the `accept` log line) checked and their departures applied -/
 def goStart (cfg : Cfg) (a3 : A) (pre : List Ev) : A :=
-  Spec.applyDepartures (Spec.checkDepartures cfg
+  Spec.applyDepartures (Spec.checkDepartures cfg (Spec.checkNoticeOrigin cfg
     (a3.chk ((Spec.closes pre).isEmpty || !(Spec.wfails pre).isEmpty) "C07"
-      "a connection was closed before any frame was read in this round") none pre) pre
+      "a connection was closed before any frame was read in this round") none pre) none pre) pre
 
 /-- the end of `Spec.round`: tallies for the statistics checks and the periodic section -/
 def roundEnd (cfg : Cfg) (a : A) (pre : List Ev) (segs : List (Nat × List Ev)) : A :=
@@ -478,11 +484,12 @@ def roundEnd (cfg : Cfg) (a : A) (pre : List Ev) (segs : List (Nat × List Ev)) 
 
 /-- the rest of `Spec.round` -/
 def roundRest (cfg : Cfg) (a3 : A) (reads : List Read) (pre : List Ev) (segs : List (Nat × List Ev)) : A :=
-  roundEnd cfg (Spec.round.go cfg (goStart cfg a3 pre) reads segs (reads.length + segs.length + 1)) pre segs
+  roundEnd cfg (Spec.roundBody.go cfg (goStart cfg a3 pre) reads segs (reads.length + segs.length + 1)) pre segs
 
 theorem goStart_ext (cfg : Cfg) (a3 : A) (pre : List Ev) :
     ∃ X, Spec.CoreExt others a3 X ∧ goStart cfg a3 pre = Spec.applyDepartures X pre :=
-  ⟨_, (ext_others (Spec.errExt_chk ["C07"] a3 _ "C07" _ (by simp))).trans
+  ⟨_, ((ext_others (Spec.errExt_chk ["C07"] a3 _ "C07" _ (by simp))).trans
+    (ext_others (Spec.checkNoticeOrigin_ext cfg _ none pre))).trans
     (ext_others (Spec.checkDepartures_ext cfg _ none pre)), rfl⟩
 
 theorem roundEnd_ext (cfg : Cfg) (a : A) (pre : List Ev) (segs : List (Nat × List Ev)) :
@@ -497,7 +504,7 @@ theorem roundEnd_ext (cfg : Cfg) (a : A) (pre : List Ev) (segs : List (Nat × Li
 
 theorem round_eq (cfg : Cfg) (a : A) (r : Round) (evs : List Ev) :
     Spec.round cfg a r evs = roundRest cfg (preA a r) (preReads a r) (Spec.splitRd evs).1 (Spec.splitRd evs).2 := by
-  unfold Spec.round roundRest roundEnd goStart preA preReads envA
+  unfold Spec.round Spec.roundBody roundRest roundEnd goStart preA preReads envA
   rfl
 
 /-- the model state in which the frames of the round are read -/
@@ -725,15 +732,15 @@ theorem round_ok {a : A} {s : State} (inv : Inv cfg a s) (r : Round) (hwf : Roun
       rw [applyDepartures_append] at h1 ⊢
       exact sim_coreExt h1 (Spec.applyDepartures_coreExt hX _)
     have hgo := go_nil_ext cfg reads (goStart cfg a3 evs) (reads.length + 1)
-    have hend := roundEnd_ext cfg (Spec.round.go cfg (goStart cfg a3 evs) reads [] (reads.length + 1)) evs []
-    have hall : Spec.CoreExt others (goStart cfg a3 evs) (roundEnd cfg (Spec.round.go cfg (goStart cfg a3 evs) reads []
+    have hend := roundEnd_ext cfg (Spec.roundBody.go cfg (goStart cfg a3 evs) reads [] (reads.length + 1)) evs []
+    have hall : Spec.CoreExt others (goStart cfg a3 evs) (roundEnd cfg (Spec.roundBody.go cfg (goStart cfg a3 evs) reads []
         (reads.length + 1)) evs []) := (ext_others hgo).trans hend
     refine ⟨⟨sim_coreExt hsimT hall, q.top, q.j⟩, fun p hp hn => hall.noErr (proven_not hp) ?_⟩
     rw [hgs]
     exact noErr_applyDepartures evs (hX.noErr (proven_not hp) (by unfold Spec.NoErr; rw [herrs]; exact hn))
   · -- at least one frame was read
     rw [hsplit, hp1, List.append_nil]
-    have hend := roundEnd_ext cfg (Spec.round.go cfg (goStart cfg a3 eAcc) reads (Spec.splitRd (E1 ++ E2)).2
+    have hend := roundEnd_ext cfg (Spec.roundBody.go cfg (goStart cfg a3 eAcc) reads (Spec.splitRd (E1 ++ E2)).2
       (reads.length + (Spec.splitRd (E1 ++ E2)).2.length + 1)) eAcc (Spec.splitRd (E1 ++ E2)).2
     exact ⟨⟨sim_coreExt hp3.sim hend, hp3.top, hp3.j⟩,
       fun p hp hn => hend.noErr (proven_not hp) (hp4 p hp (herr0 p hp hn))⟩
